@@ -1,0 +1,67 @@
+//go:build verif
+
+// Contracts for page settings (property C12), read by /verif/engine (govc).
+// Comments only: with or without the build tag this file adds no code to the package.
+package document
+
+//@ func mmToTwips
+//@ props C12
+//@ modifies nothing
+//@ ensures result == mm * 56.692913385827
+
+//@ func twipsToMM
+//@ props C12
+//@ modifies nothing
+//@ ensures result == twips / 56.692913385827
+
+//@ func abs
+//@ props C12
+//@ modifies nothing
+//@ ensures result >= 0.0 && (result == x || result == 0.0 - x)
+
+//@ func parseFloat
+//@ props C12
+//@ modifies nothing
+//@ ensures atoiOK(s) && s != "" ==> result == real(atoi(s))
+//@ ensures s == "" ==> result == 0.0
+
+//@ func (*Document).findSectionProperties
+//@ props C12
+//@ requires d != nil && (d.Body == nil || elemsOK(d.Body.Elements))
+//@ modifies nothing
+//@ ensures d.Body == nil ==> result == nil
+//@ ensures d.Body != nil && noSect(d.Body.Elements) ==> result == nil
+//@ ensures d.Body != nil && !noSect(d.Body.Elements) ==> result != nil && (exists p int :: firstSectAt(d.Body.Elements, p) && d.Body.Elements[p].(*SectionProperties) == result)
+//@ loop 1
+//@   invariant 0 <= #i && #i <= len(d.Body.Elements) && unchangedHeap() && d.Body != nil
+//@   invariant forall q int :: 0 <= q && q < #i ==> !isSect(d.Body.Elements[q])
+//@   decreases len(d.Body.Elements) - #i
+
+// near(w, h, k): (w, h) is within the documented 1 mm tolerance of predefined size k, in either orientation.
+//@ spec absR(x float64) float64 = ite(x < 0.0, 0.0 - x, x)
+//@ spec near(w float64, h float64, k PageSize) bool = (absR(w - predefinedSizes[k].width) < 1.0 && absR(h - predefinedSizes[k].height) < 1.0) || (absR(w - predefinedSizes[k].height) < 1.0 && absR(h - predefinedSizes[k].width) < 1.0)
+
+//@ func identifyPageSize
+//@ props C12
+//@ modifies nothing
+//@ ensures result != PageSizeCustom ==> has(predefinedSizes, result) && near(width, height, result)
+//@ ensures result == PageSizeCustom ==> forall k PageSize :: has(predefinedSizes, k) ==> !near(width, height, k)
+//@ loop 1
+//@   invariant unchangedHeap()
+//@   invariant forall k PageSize :: seen(k) ==> !near(width, height, k)
+
+//@ func getPageDimensions
+//@ props C12
+//@ requires settings != nil
+//@ modifies nothing
+//@ ensures settings.Size == PageSizeCustom && settings.Orientation != OrientationLandscape ==> width == settings.CustomWidth && height == settings.CustomHeight
+//@ ensures settings.Size == PageSizeCustom && settings.Orientation == OrientationLandscape ==> width == settings.CustomHeight && height == settings.CustomWidth
+//@ ensures settings.Size != PageSizeCustom && has(predefinedSizes, settings.Size) && settings.Orientation != OrientationLandscape ==> width == predefinedSizes[settings.Size].width && height == predefinedSizes[settings.Size].height
+//@ ensures settings.Size != PageSizeCustom && has(predefinedSizes, settings.Size) && settings.Orientation == OrientationLandscape ==> width == predefinedSizes[settings.Size].height && height == predefinedSizes[settings.Size].width
+//@ ensures settings.Size != PageSizeCustom && !has(predefinedSizes, settings.Size) && has(predefinedSizes, PageSizeA4) && settings.Orientation != OrientationLandscape ==> width == predefinedSizes[PageSizeA4].width && height == predefinedSizes[PageSizeA4].height
+
+//@ func validatePageSettings
+//@ props C12
+//@ requires settings != nil
+//@ modifies nothing
+//@ ensures result == nil <==> ((settings.Size != PageSizeCustom || (settings.CustomWidth >= 12.7 && settings.CustomWidth <= 558.8 && settings.CustomHeight >= 12.7 && settings.CustomHeight <= 558.8)) && (settings.Orientation == OrientationPortrait || settings.Orientation == OrientationLandscape))
